@@ -47,6 +47,7 @@ from netqasm.qlink_compat import (
     LinkLayerOKTypeK,
     LinkLayerOKTypeM,
     LinkLayerOKTypeR,
+    RandomBasis,
     RequestType,
     ReturnType,
     get_creator_node_id,
@@ -1065,6 +1066,9 @@ class Executor:
             else:
                 kwargs[field] = arg
         kwargs["type"] = RequestType(kwargs["type"])  # type: ignore
+        # Just like the type, the random-basis sets are enums in a LinkLayerCreate.
+        for field in ["random_basis_local", "random_basis_remote"]:
+            kwargs[field] = RandomBasis(kwargs[field])  # type: ignore
 
         return LinkLayerCreate(**kwargs)
 
